@@ -66,7 +66,8 @@ MANIFEST = {
     "technique": "Lean 4 proof over extracted except-tables + raw-wire differential correspondence (pipe/unix) with sentinel",
 }
 
-KNOWN_METHODS = {"add", "ping", "echo", "boom"}
+KNOWN_METHODS = {"add", "ping", "echo", "boom"}                       # unary: what the single-request generator calls
+STREAM_METHODS = {"badstream", "okstream", "hdrstream"}                 # only called by the lockstep / drained families
 SCHEMAS = {
     "add": ADD_SCHEMA,
     "ping": pa.schema([]),
@@ -342,7 +343,7 @@ def abstract(data: bytes, static_shm: Any, version: str | None) -> dict[str, Any
     rq: dict[str, Any] = {
         "openStream": "ok", "firstRead": "ok", "laterReads": [], "hasMethod": False, "methodText": True, "version": "absent",
         "traceparent": "absent", "tracestate": "absent", "shmName": "absent", "shmSize": "absent", "isPointer": False,
-        "staticShm": static_shm is not None, "shmOpen": "ok", "allocInit": "ok", "resolve": "ok", "deser": "ok", "release": "ok", "ncols": 0, "rows": 0, "asPy": "ok",
+        "streamNoHeader": False, "peerWaits": False, "staticShm": static_shm is not None, "shmOpen": "ok", "allocInit": "ok", "resolve": "ok", "deser": "ok", "release": "ok", "ncols": 0, "rows": 0, "asPy": "ok",
         "isTransportOptions": False, "methodKnown": False, "versionCheck": "ok", "validate": "ok", "call": "ok",
     }
     src = io.BytesIO(data)
@@ -461,7 +462,7 @@ def abstract(data: bytes, static_shm: Any, version: str | None) -> dict[str, Any
         if rq["hasMethod"] and rq["methodText"]:
             name = md[RPC_METHOD_KEY].decode()
         rq["isTransportOptions"] = name == "__transport_options__"
-        rq["methodKnown"] = name in KNOWN_METHODS
+        rq["methodKnown"] = name in KNOWN_METHODS or name in STREAM_METHODS
         if rq["methodKnown"] and rq["asPy"] == "ok":
             srv = c05util.probe_server(version)
             info = srv.methods[name]
@@ -671,6 +672,89 @@ def run_drained(job: dict[str, Any]) -> list[dict[str, Any]]:
     return out
 
 
+# ------------------------------------------------------------------------------------------ lockstep peer, refused stream calls
+
+STREAM_SCHEMA = pa.schema([pa.field("a", pa.int64(), nullable=False)])
+# how the request of a stream method is made unacceptable (or not): label -> (schema, values)
+LOCKSTEP_BAD: dict[str, Any] = {
+    "valid": (STREAM_SCHEMA, [1]),
+    "retyped": (pa.schema([pa.field("a", pa.string(), nullable=False)]), ["x"]),
+    "nullable": (pa.schema([pa.field("a", pa.int64(), nullable=True)]), [1]),
+    "null": (pa.schema([pa.field("a", pa.int64(), nullable=True)]), [None]),
+    "renamed": (pa.schema([pa.field("b", pa.int64(), nullable=False)]), [1]),
+    "extra": (pa.schema([pa.field("a", pa.int64(), nullable=False), pa.field("z", pa.int64(), nullable=False)]), [1, 2]),
+    "missing": (pa.schema([]), []),
+}
+
+
+def lockstep_cases() -> list[dict[str, Any]]:
+    """(method, how the request is bad, protocol-version mismatch, peer behaviour): every refused stream call."""
+    out = []
+    for method in ("okstream", "badstream", "hdrstream"):
+        for bad in LOCKSTEP_BAD:
+            for vers in (None, "ok", "mismatch", "absent"):
+                if bad == "valid" and vers in (None, "ok") and method != "badstream":
+                    continue          # an accepted stream call: a header-less one is silent until its input arrives (not a refusal)
+                for peer in ("wait", "half_close"):
+                    out.append({"method": method, "bad": bad, "vers": vers, "peer": peer})
+    return out
+
+
+def run_lockstep(job: dict[str, Any]) -> list[dict[str, Any]]:
+    """The peer writes the request of a stream call the server refuses (parameter validation, version gate, failed init) and
+    then WAITS for the reply — as the reference client does — or half-closes.  A reply must arrive without more input."""
+    out = []
+    for c in job["cases"]:
+        sch, vals = LOCKSTEP_BAD[c["bad"]]
+        batch = (pa.RecordBatch.from_arrays([pa.array([v], type=f.type) for v, f in zip(vals, sch)], schema=sch) if len(sch)
+                 else pa.RecordBatch.from_pylist([{}], schema=sch))
+        md = {b"vgi_rpc.method": c["method"].encode(), b"vgi_rpc.request_version": b"1"}
+        version = None if c["vers"] is None else "1.2.3"
+        if c["vers"] == "ok":
+            md[b"vgi_rpc.protocol_version"] = b"1.2.3"
+        elif c["vers"] == "mismatch":
+            md[b"vgi_rpc.protocol_version"] = b"2.0.0"
+        data = raw_stream(sch, [(batch, md)])
+        for transport in job.get("transports", ("pipe", "unix")):
+            rq = abstract(data, None, version)
+            headerless = c["method"] in ("okstream", "badstream")
+            rq["streamNoHeader"] = headerless
+            rq["peerWaits"] = True
+            rq["methodKnown"] = True
+            if c["method"] == "badstream":
+                rq["call"] = {"raises": "ValueError"}
+            # after the reply the lockstep peer ends the input stream it owes a header-less stream (the server drains it)
+            finish = raw_stream(pa.schema([]), []) if headerless else b""
+            p = Probe(transport, version)
+            r = p.send(data, half_close=c["peer"] == "half_close", deadline=job.get("deadline", 6.0), finish=finish)
+            p.close()
+            out.append({"desc": {"kind": "lockstep", "d": c}, "transport": transport, "version": version, "hex": data.hex(),
+                        "obs": {"outcome": r["outcome"], "reply": reply_class(r["reply"]), "server": r["server"], "detail": r.get("server_detail"),
+                                "raw_reply": r["reply"], "sentinel": r["sentinel"]}, "rq": rq, "reused": False})
+    return out
+
+
+def judge_lockstep(ctx: Any, rec: dict[str, Any]) -> None:
+    obs, desc, rq = rec["obs"], rec["desc"], rec["rq"]
+    d = desc["d"]
+    case = {"desc": desc, "transport": rec["transport"], "version": rec["version"], "hex": rec["hex"]}
+    ctx.case(case, nontrivial=True, tags=["k:lockstep", f"t:{rec['transport']}", f"obs:{obs['outcome']}", f"reply:{obs['reply']}",
+                                          f"lock-method:{d['method']}", f"lock-bad:{d['bad']}", f"lock-vers:{d['vers']}", f"lock-peer:{d['peer']}"])
+    if obs["outcome"] != "replyContinue":
+        srvx = obs["server"].split(":")[-1] if obs["server"].startswith("raised") else obs["server"]
+        ctx.fail(case, f"C05:lockstep:{obs['outcome']}:{d['method']}:{'version' if d['vers'] in ('mismatch', 'absent') else d['bad']}",
+                 f"{rec['transport']}: request for stream method {d['method']} ({d['bad']} parameters, protocol version {d['vers']}) from a peer "
+                 f"that then {'waits for the reply' if d['peer'] == 'wait' else 'half-closes'}: got {obs['outcome']} "
+                 f"(reply={obs['raw_reply']}, server={obs['server']} {srvx})")
+    if ctx.driver is None:
+        return
+    m = ctx.driver.call("C05.serve", rq)
+    model = {"outcome": m["outcome"], "reply": model_reply_class(m["reply"])}
+    impl = {"outcome": obs["outcome"], "reply": obs["reply"]}
+    if model != impl:
+        ctx.mismatch({**case, "rq": rq}, model, {**impl, "server": obs["server"], "raw": obs["raw_reply"]}, "lockstep refusal: model vs serve()")
+
+
 def judge_drained(ctx: Any, rec: dict[str, Any]) -> None:
     obs, desc = rec["obs"], rec["desc"]
     case = {"desc": desc, "transport": rec["transport"], "version": None, "hex": rec["hex"]}
@@ -848,24 +932,39 @@ def run(ctx: Any) -> None:
             jobs.append({"kind": "corrupt", "n": 700, "seed": 1000 + s, "offsets": list(range(700))})
     results: list[list[dict[str, Any]]] = []
     djobs = [{"seed": 7, "n": 0, "all": True}, {"seed": rng.randrange(1 << 40), "n": ctx.budget(60, 1500)}]
+    lcases = lockstep_cases()
+    ljobs = [{"cases": lcases[i::6], "transports": ("pipe", "unix")} for i in range(6)]
     try:
         with _pool() as ex:
             fut_c = ex.submit(run_corpus, {})
-            fut_d = [ex.submit(run_drained, j) for j in djobs]
+            fut_d = [ex.submit(run_drained, j) for j in djobs] + [ex.submit(run_lockstep, j) for j in ljobs]
             results = list(ex.map(run_chunk, jobs))
             results.insert(0, fut_c.result())
             results += [f.result() for f in fut_d]
     except Exception as e:  # noqa: BLE001
         ctx.note("pool_error", repr(e)[:200])
-        results = [run_corpus({})] + [run_chunk(j) for j in jobs[: max(2, len(jobs) // 8)]] + [run_drained(j) for j in djobs]
+        results = [run_corpus({})] + [run_chunk(j) for j in jobs[: max(2, len(jobs) // 8)]] + [run_drained(j) for j in djobs] + [run_lockstep(j) for j in ljobs]
+    confirmed = {"n": 0}      # hangs that survived the confirmation: after a few, further ones are taken at their word
     for recs in results:
         for rec in recs:
+            if rec["obs"]["outcome"] == "hang" and confirmed["n"] >= 4:
+                (judge_drained if rec["desc"]["kind"] == "drained" else judge_lockstep if rec["desc"]["kind"] == "lockstep" else judge)(ctx, rec)
+                continue
+            if rec["desc"]["kind"] == "lockstep":
+                if rec["obs"]["outcome"] == "hang":
+                    ctx.tag("rerun-after-deadline")
+                    again = run_lockstep({"cases": [rec["desc"]["d"]], "transports": (rec["transport"],), "deadline": 30.0})
+                    rec = again[0] if again else rec
+                    confirmed["n"] += rec["obs"]["outcome"] == "hang"
+                judge_lockstep(ctx, rec)
+                continue
             if rec["desc"]["kind"] == "drained":
                 if rec["obs"]["outcome"] == "hang":
                     # a miss of the deadline may be CPU starvation of the worker: confirm alone, with a long deadline
                     ctx.tag("rerun-after-deadline")
                     again = run_drained({"seed": 11, "n": 0, "fixed": [rec["desc"]["d"]["offsets"]], "deadline": 30.0})
                     rec = again[0] if again else rec
+                    confirmed["n"] += rec["obs"]["outcome"] == "hang"
                 judge_drained(ctx, rec)
                 continue
             if rec["obs"]["outcome"] == "hang":
@@ -873,6 +972,7 @@ def run(ctx: Any) -> None:
                 ctx.tag("rerun-after-deadline")
                 with contextlib.suppress(RuntimeError):
                     rec = reprobe(rec, 30.0)
+                confirmed["n"] += rec["obs"]["outcome"] == "hang"
             judge(ctx, rec)
     ctx.note("requests", sum(len(r) for r in results))
 
@@ -910,6 +1010,10 @@ def reprobe(case: dict[str, Any], deadline: float) -> dict[str, Any]:
 def replay(ctx: Any, case: dict[str, Any] | None) -> None:
     if case is None:          # a "no-longer-checks" replay carries no single failing input: run the check
         run(ctx)
+        return
+    if case["desc"]["kind"] == "lockstep":
+        for rec in run_lockstep({"cases": [case["desc"]["d"]], "transports": (case.get("transport", "pipe"),), "deadline": 30.0}):
+            judge_lockstep(ctx, rec)
         return
     if case["desc"]["kind"] == "drained":
         # offsets refer to the worker's own segment: re-run the exhaustive small set (it contains every offset class)
